@@ -174,6 +174,7 @@ pub fn exec_supply(check: &str, t: &SupplyTrace, scratch: &Scratch, rec: &mut Ru
 /// For replays: forget what this process executed before.
 pub fn clear_history() {
     RECENT.with(|h| h.borrow_mut().clear());
+    crate::exec::reset_same_thread();
 }
 
 fn exec_supply_inner(check: &str, t: &SupplyTrace, scratch: &Scratch, rec: &mut RunRecord, seed: u64, index: u64) -> Vec<Finding> {
@@ -244,22 +245,32 @@ fn exec_supply_inner(check: &str, t: &SupplyTrace, scratch: &Scratch, rec: &mut 
         // digit runs are masked: positions inside a document depend on the length of ECDSA / RSA-PSS
         // signatures, whose bytes ring's entropy decides (DESIGN §2.2)
         let masked: String = crate::exec::mask_scratch(&v.short()).chars().map(|c| if c.is_ascii_digit() { '#' } else { c }).collect();
-        d.str(&masked);
-        d.update(&(v.clock_reads as u64).to_le_bytes());
+        // on the long-lived verifier thread the order in which maps iterate depends on how many maps the
+        // thread has made before, and with it WHICH of several errors a failing verification reports: only
+        // the verdict class is part of the log there
+        d.str(if t.same_thread { v.verdict_class() } else { &masked });
+        // (likewise how many sub-layouts, and so how many clock reads, come before the failing one)
+        d.update(&(if t.same_thread && !v.ok { 0 } else { v.clock_reads as u64 }).to_le_bytes());
         d.update(&(v.hash_draws as u64).to_le_bytes());
         if let Some(s) = &v.summary {
             d.str(&s.to_string());
         }
     }
     d.str(&j.shape);
+    // (and which delegated levels, with their inspections, were gone through before a failing level)
+    let order_free = !(t.same_thread && o.verdicts.iter().any(|v| !v.ok));
     for e in &o.events {
         for l in e {
-            d.str(l);
+            if order_free {
+                d.str(l);
+            }
         }
     }
     for w in &o.work_after {
         for l in w {
-            d.str(l);
+            if order_free {
+                d.str(l);
+            }
         }
     }
     rec.log_digest = d.finish();
@@ -277,6 +288,7 @@ fn exec_supply_inner(check: &str, t: &SupplyTrace, scratch: &Scratch, rec: &mut 
         }));
     }
     if std::env::var("SCSIM_DEBUG").is_ok() {
+        eprintln!("DEBUG digest parts: same_thread {} in_place {} via_symlink {:?} reads {:?} draws {:?} shape {}", t.same_thread, t.in_place, t.via_symlink, o.verdicts.iter().map(|v| v.clock_reads).collect::<Vec<_>>(), o.verdicts.iter().map(|v| v.hash_draws).collect::<Vec<_>>(), j.shape);
         eprintln!("DEBUG {:?} -> {:?} events {:?} work {:?}", t.labels, o.verdicts.iter().map(|v| v.short()).collect::<Vec<_>>(), o.events, o.work_after);
     }
     let mut own = vec![];
@@ -363,6 +375,14 @@ pub fn run_supply_check(check: &str, tier: Tier, seed: u64, index: u64, scratch:
             _ => 2,
         };
         t.fixed_mtime = er.chance(1, 3);
+        t.same_thread = gen::same_thread_block(seed);
+        if er.chance(1, 6) {
+            t.via_symlink = Some(er.next());
+        } else if er.chance(1, 4) {
+            // (time-stamp preserving more often than not: that is how in-place updates go unnoticed)
+            t.in_place = true;
+            t.fixed_mtime = er.chance(2, 3);
+        }
         // the caller may ask for a named summary (the parameter the recursion uses for delegated levels)
         if check != "C15" && er.chance(1, 4) {
             t.step_name = Some(gen::simple_name(&mut er));
@@ -458,6 +478,41 @@ pub fn run_c13(tier: Tier, seed: u64, index: u64, scratch: &Scratch, rec: &mut R
             }
             t.labels.push("SHARED-SUBLAYOUT-SURPLUS".into());
         }
+    }
+    // one world in ten: an inspection whose rules hinge on the DIGEST of a delivered file (it must be the
+    // last step's product), with the bytes of that file arriving in short reads / after EINTR on every
+    // other repetition (shape 8)
+    let digest_insp = !shared_sub && Rng::stream(seed, "c13-shape8").chance(1, 10);
+    if digest_insp {
+        shape = 8;
+        let mut cr = Rng::stream(seed, "c13-shape8-content");
+        let size = *cr.pick(&[10usize, 700, 5000, 9000, 20000]);
+        let content: String = (0..size).map(|i| (b'a' + ((i as u64 * 7 + seed) % 26) as u8) as char).collect();
+        let last = t.root.layout.steps[n_steps - 1].name.clone();
+        let mut dg = std::collections::BTreeMap::new();
+        dg.insert("sha256".to_string(), gen::sha256_hex(content.as_bytes()));
+        for f in t.root.files.iter_mut() {
+            if f.name.starts_with(&format!("{}.", last)) {
+                if let crate::world::Body::Link(l) = &mut f.body {
+                    l.products.insert("delivered.bin".into(), dg.clone());
+                }
+            }
+        }
+        t.root.layout.steps[n_steps - 1].exp_prod.insert(0, vec!["ALLOW".into(), "delivered.bin".into()]);
+        t.root.layout.inspect.push(crate::world::InspSpec {
+            name: "final-check".into(),
+            exp_mat: vec![vec!["MATCH".into(), "delivered.bin".into(), "WITH".into(), "PRODUCTS".into(), "FROM".into(), last], vec!["DISALLOW".into(), "delivered.bin".into()], vec!["ALLOW".into(), "*".into()]],
+            exp_prod: vec![vec!["ALLOW".into(), "*".into()]],
+            actor: crate::world::ActorScript { id: "root#final-check".into(), ops: vec![], stdout: vec![], stderr: vec![], exit: crate::world::ExitSpec::Code(0) },
+        });
+        t.work_files = vec![("delivered.bin".into(), content), ("notes.txt".into(), "n".into())];
+        t.hash_seeds.truncate(6);
+        t.read_faults = Some(match cr.below(3) {
+            0 => (600, 0),
+            1 => (300, 200),
+            _ => (150, 50),
+        });
+        t.labels.push("INSPECTION-DIGEST-MATCH".into());
     }
     let sname = t.root.layout.steps[si].name.clone();
     let template = t.root.files.iter().find(|f| f.name.starts_with(&format!("{}.", sname)) && matches!(f.body, crate::world::Body::Link(_))).cloned();
@@ -588,7 +643,7 @@ pub fn run_c13(tier: Tier, seed: u64, index: u64, scratch: &Scratch, rec: &mut R
         }
     }
     // the bytes of the link files arrive in short reads / after EINTR on every other repetition
-    if fr.chance(1, 3) {
+    if !digest_insp && fr.chance(1, 3) {
         t.read_faults = Some(match fr.below(3) {
             0 => (500, 0),
             1 => (300, 200),
